@@ -75,7 +75,8 @@ class C17(Base):
     RULE = ("enumeration of the box the property names: every class variant,"
             " n in 0..6 (thorough 0..12), every unit count 0..n+2 (each of "
             "RAM/DISK where there are two), all four StorageType members, "
-            "period 0..4, both trajectories; thorough adds seeded excursions "
+            "period 0..4, both trajectories, each tuple also constructed with "
+            "numpy integers / keyword arguments; then seeded excursions "
             "(larger n, seeded positive dyadic costs); valid tuples must "
             "construct and run to their final action with no executability "
             "or phase guard firing, invalid tuples must raise at construction"
@@ -98,6 +99,13 @@ class C17(Base):
     def plan(self, rng, tier, idx):
         if idx < len(self.box):
             cfg = self.box[idx]
+        elif idx < 2 * len(self.box):
+            # the same box once more, constructed with numpy integers and/or
+            # keyword arguments (unusual but legal calling forms)
+            import copy
+            cfg = copy.deepcopy(self.box[idx - len(self.box)])
+            if cfg["p"]:
+                cfg["p"]["call"] = ("np", "npkw", "kw")[idx % 3]
         else:
             from ..driver import draw_cfg, VARIANTS
             from .base import E1
@@ -123,6 +131,10 @@ class C17(Base):
             elif u < 0.55 and cfg["cls"] not in ("None", "SingleMemory",
                                                  "SingleDisk", "TwoLevel"):
                 cfg["N"] = rng.choice((0, 1, -1))
+            if cfg["p"] and rng.random() < 0.2:
+                cfg["p"]["call"] = rng.choice(("np", "kw", "npkw"))
+            if "uf" in cfg["p"] and rng.random() < 0.3:
+                cfg["p"]["costs_int"] = True
         passes = 0 if cfg["cls"] == "None" else 1
         return Plan([(cfg, passes, "every")])
 
